@@ -316,6 +316,22 @@ func (u *Unit) frameObligations(b *Block, exits []*Exit, entry *State, pos token
 	if star {
 		return
 	}
+	allocOK := map[string]bool{}
+	for _, c := range b.clauses("allocates") {
+		for _, item := range strings.Fields(c.Text) {
+			ce := u.specEv(entry, pos)
+			if name, _ := ce.allocHeap(item, u.bv); name != "" {
+				allocOK[name] = true
+			}
+		}
+	}
+	for h := range u.writes {
+		if !allowedAll[h] && len(except[h]) == 0 && !allocOK[h] && !strings.HasPrefix(h, "B$") {
+			if _, ok := u.inits[h]; ok {
+				u.g.errorf("%s: writes heap %s which is in neither its modifies nor its allocates clause", u.name, h)
+			}
+		}
+	}
 	var parts []string
 	var names []string
 	var hs []string
@@ -389,28 +405,47 @@ func (g *Gen) axiomsText(u *Unit) string {
 	return sb.String()
 }
 
-func (o *Obligation) query(g *Gen, withModel bool) string {
+func (o *Obligation) query(g *Gen, withModel bool) string { return o.queryV(g, withModel, 0) }
+
+// queryV builds the SMT query. variant 0 = full; 1 = without heavy hypotheses (quantified facts
+// over float carriers); 2 = additionally without the global carrier/bridge axioms. Variants
+// only drop hypotheses, so unsat on a variant is still a proof of the obligation.
+func (o *Obligation) queryV(g *Gen, withModel bool, variant int) string {
 	if o.Raw != "" {
 		return o.Raw
 	}
 	var sb strings.Builder
 	sb.WriteString("(set-option :produce-models true)\n(set-logic ALL)\n")
 	sb.WriteString(g.Pre.text())
-	sb.WriteString(g.axiomsText(o.unit))
+	if variant < 2 {
+		sb.WriteString(g.axiomsText(o.unit))
+	} else {
+		sb.WriteString(g.groundAxiomsText(o.unit))
+	}
 	if o.unit != nil {
 		for _, d := range o.unit.decls {
 			sb.WriteString(d + "\n")
 		}
 		for _, d := range o.unit.defs {
+			if variant > 0 && isHeavyHyp(d) {
+				continue
+			}
 			sb.WriteString("(assert " + d + ")\n")
 		}
 	}
 	for _, h := range o.Hyps {
+		if variant > 0 && isHeavyHyp(h) {
+			continue
+		}
 		sb.WriteString("(assert " + h + ")\n")
 	}
-	sb.WriteString("(assert " + smtNot(o.Goal) + ")\n")
+	goal := o.Goal
+	if variant > 0 && o.LightGoal != "" {
+		goal = o.LightGoal
+	}
+	sb.WriteString("(assert " + smtNot(goal) + ")\n")
 	sb.WriteString("(check-sat)\n")
-	if withModel && len(o.Inputs) > 0 {
+	if withModel && len(o.Inputs) > 0 && variant == 0 {
 		var ts []string
 		for _, in := range o.Inputs {
 			ts = append(ts, in.Term)
@@ -420,6 +455,16 @@ func (o *Obligation) query(g *Gen, withModel bool) string {
 	return sb.String()
 }
 
+// groundAxiomsText: only the quantifier-free axioms.
+func (g *Gen) groundAxiomsText(u *Unit) string {
+	var sb strings.Builder
+	for _, l := range strings.Split(g.axiomsText(u), "\n") {
+		if l != "" && !strings.Contains(l, "(forall") {
+			sb.WriteString(l + "\n")
+		}
+	}
+	return sb.String()
+}
 // verifyCase verifies one case of the first switch of a function against its case contract: the
 // function is executed from its entry, but at the designated switch only that case is explored.
 func (g *Gen) verifyCase(b *Block) { g.verifyCaseX(b, false) }
